@@ -21,7 +21,8 @@ from __future__ import annotations
 from ..core import Ctx
 from .. import sitecheck
 from ..sitecheck import (kf_superseded_duplicate_listed, kf_superseded_duplicate_not_rendered,    # noqa: F401  (known_findings "py")
-                         kf_percent_encoded_page_filename, kf_toc_backref_stale_id, kf_inherited_docstring_link,
+                         kf_percent_encoded_page_filename, kf_toc_backref_stale_id, kf_footnote_backref_unprefixed,
+                         kf_summary_local_reference_copied, kf_inherited_docstring_link,
                          kf_dead_link_to_hidden, kf_dead_link_hidden_root)
 
 
